@@ -1,4 +1,4 @@
-use crate::model::graph::{GraphBlock, GraphInline};
+use crate::model::graph::{GraphBlock, GraphInline, GraphInlines};
 use crate::model::node::{Node, NodeIter, ReferenceType};
 
 pub struct Projector {
@@ -22,6 +22,14 @@ impl Projector {
         }
     }
 
+    // inlines leave the tree with their note links written relative to the note
+    fn relative(&self, inlines: GraphInlines) -> GraphInlines {
+        inlines
+            .iter()
+            .map(|inline| inline.relative_to(&self.parent))
+            .collect()
+    }
+
     fn project_node<'a>(&self, iter: impl NodeIter<'a>) -> Vec<GraphBlock> {
         let mut blocks = vec![];
 
@@ -38,7 +46,7 @@ impl Projector {
             Node::Section(_) => {
                 blocks.push(GraphBlock::Header(
                     self.header_level + 1,
-                    iter.inlines(),
+                    self.relative(iter.inlines()),
                 ));
 
                 if let Some(child) = iter.child() {
@@ -71,7 +79,7 @@ impl Projector {
                 }
             }
             Node::Leaf(_) => {
-                blocks.push(GraphBlock::Para(iter.inlines()));
+                blocks.push(GraphBlock::Para(self.relative(iter.inlines())));
             }
             Node::Raw(_, _) => {
                 blocks.push(GraphBlock::CodeBlock(
@@ -84,7 +92,7 @@ impl Projector {
             }
             Node::Reference(_) => {
                 let inlines = match iter.ref_type().unwrap() {
-                    ReferenceType::Regular => iter.inlines(),
+                    ReferenceType::Regular => self.relative(iter.inlines()),
                     ReferenceType::WikiLink => vec![],
                     ReferenceType::WikiLinkPiped => {
                         vec![GraphInline::Str(iter.ref_text().unwrap_or_default())]
@@ -105,13 +113,13 @@ impl Projector {
                     iter.table_header()
                         .unwrap_or_default()
                         .iter()
-                        .cloned()
+                        .map(|cell| self.relative(cell.clone()))
                         .collect(),
                     iter.table_alignment().unwrap_or_default(),
                     iter.table_rows()
                         .unwrap_or_default()
                         .iter()
-                        .map(|row| row.iter().cloned().collect())
+                        .map(|row| row.iter().map(|cell| self.relative(cell.clone())).collect())
                         .collect(),
                 ));
             }
@@ -130,9 +138,9 @@ impl Projector {
         }
 
         if iter.child().map(|n| n.is_leaf()).unwrap_or(false) {
-            items.push(vec![GraphBlock::Para(iter.inlines())]);
+            items.push(vec![GraphBlock::Para(self.relative(iter.inlines()))]);
         } else {
-            items.push(vec![GraphBlock::Plain(iter.inlines())]);
+            items.push(vec![GraphBlock::Plain(self.relative(iter.inlines()))]);
         }
 
         iter.child()
